@@ -831,10 +831,20 @@ func init() {
 			if nvarargs < 0 {
 				nvarargs = 0
 			}
-			nwant := B - 1
-			if B == 0 {
-				nwant = nvarargs
+			if B != 0 {
+				// a fixed number of values may go into registers below live locals: store them
+				// one by one and leave the registers above alone
+				start := cf.Base + nparams + 1
+				for i := 0; i < B-1; i++ {
+					if i < nvarargs {
+						reg.Set(RA+i, reg.Get(start+i))
+					} else {
+						reg.Set(RA+i, LNil)
+					}
+				}
+				return 0
 			}
+			nwant := nvarargs
 			// +inline-call reg.CopyRange RA cf.Base+nparams+1 cf.LocalBase nwant
 			return 0
 		},
